@@ -420,13 +420,24 @@ inductive Op
 inductive Res | ok | err | bad
   deriving DecidableEq, Repr
 
-/-- `occa::device(props)` for Serial: a new device object with its first stream as `currentStream` -/
-def newDevice (s : St) : St × Nat :=
-  let (s, d) := s.alloc .dev none 0
-  let s := construct s (.cur d)
-  let (s, st) := s.alloc .str (some d) 0
-  let s := s.chSet .str d (Ring.add (s.chGet .str d) st)      -- modeStream_t(): modeDevice->addStreamRef(this)
-  (setMode s (.cur d) (some st), d)                            -- setStream(createStream())
+/-- the temporary handle that a creating call returns: `X tmp(modeX)` (constructor from the raw pointer) -/
+def tempOf (s : St) (k : HKind) (o : Nat) : St :=
+  setMode (construct s (.tmp k)) (.tmp k) (some o)
+
+/-- `v = <the returned temporary>;` and the destruction of the temporary at the end of the statement -/
+def assignTemp (s : St) (v : Var) (k : HKind) : St :=
+  destruct (setMode s v (s.ptr (.tmp k))) (.tmp k)
+
+/-- `occa::device(props)` for Serial (`device::setup` on a temporary device handle): a new device
+    object, referenced by the temporary, with its first stream as `currentStream` -/
+def newDevice (s : St) : St :=
+  let (s, d) := s.alloc .dev none 0                            -- occa::newModeDevice(props)
+  let s := construct s (.cur d)                                --   its member currentStream
+  let s := tempOf s .dev d                                     -- setModeDevice(...) of the temporary
+  let (s, st) := s.alloc .str (some d) 0                       -- createStream(): new serial::stream(this, props)
+  let s := s.chSet .str d (Ring.add (s.chGet .str d) st)       --   modeStream_t(): modeDevice->addStreamRef(this)
+  let s := tempOf s .str st                                    --   returned as a temporary stream handle
+  assignTemp s (.cur d) .str                                   -- setStream(s): currentStream = s; ~s
 
 def step (s : St) : Op → St × Res
   | .ctor k i =>
@@ -455,8 +466,7 @@ def step (s : St) : Op → St × Res
   | .mkdev i =>
     let v := Var.user .dev i
     if !s.vlive v then (s, .bad) else
-    let (s, d) := newDevice s
-    (setMode s v (some d), .ok)
+    (assignTemp (newDevice s) v .dev, .ok)
   | .malloc m d n =>
     let vm := Var.user .mem m; let vd := Var.user .dev d
     if !s.vlive vm || !s.vlive vd then (s, .bad) else
@@ -470,7 +480,7 @@ def step (s : St) : Op → St × Res
       let (s, mm) := s.alloc .mem (some b) n                   -- new serial::memory(buf, bytes, 0)
       let s := s.setKids b (Ring.add (s.kids b) mm)            --   modeBuffer->addModeMemoryRef(this)
       let s := s.addBytes dv n                                 -- modeDevice->bytesAllocated += bytes
-      (setMode s vm (some mm), .ok)
+      (assignTemp (tempOf s .mem mm) vm .mem, .ok)
   | .slice m1 m2 off n =>
     let v1 := Var.user .mem m1; let v2 := Var.user .mem m2
     if !s.vlive v1 || !s.vlive v2 then (s, .bad) else
@@ -485,7 +495,7 @@ def step (s : St) : Op → St × Res
         let s1 := s0.touch b
         let (s1, ms) := s1.alloc .mem (some b) n               -- modeBuffer->slice(...) = new memory(this, bytes, offset)
         let s1 := s1.setKids b (Ring.add (s1.kids b) ms)
-        (setMode s1 v1 (some ms), .ok)
+        (assignTemp (tempOf s1 .mem ms) v1 .mem, .ok)
   | .mkpool p d =>
     let vp := Var.user .pool p; let vd := Var.user .dev d
     if !s.vlive vp || !s.vlive vd then (s, .bad) else
@@ -495,7 +505,7 @@ def step (s : St) : Op → St × Res
       let s := s.touch dv
       let (s, pl) := s.alloc .pool (some dv) 0                 -- new serial::memoryPool(this, props)
       let s := s.chSet .buf dv (Ring.add (s.chGet .buf dv) pl) --   modeBuffer_t(): modeDevice->addMemoryRef(this)
-      (setMode s vp (some pl), .ok)
+      (assignTemp (tempOf s .pool pl) vp .pool, .ok)
   | .reserve m p n =>
     let vm := Var.user .mem m; let vp := Var.user .pool p
     if !s.vlive vm || !s.vlive vp then (s, .bad) else
@@ -513,7 +523,7 @@ def step (s : St) : Op → St × Res
           { s with inner := upd s.inner pl (some ib) }
       let (s, mr) := s.alloc .mem (some pl) n                  -- slice(offset, bytes) = new memory(this, ...)
       let s := s.setKids pl (Ring.add (s.kids pl) mr)
-      (setMode s vm (some mr), .ok)
+      (assignTemp (tempOf s .mem mr) vm .mem, .ok)
   | .mkker k d =>
     let vk := Var.user .ker k; let vd := Var.user .dev d
     if !s.vlive vk || !s.vlive vd then (s, .bad) else
@@ -523,7 +533,7 @@ def step (s : St) : Op → St × Res
       let s := s.touch dv
       let (s, ko) := s.alloc .ker (some dv) 0
       let s := s.chSet .ker dv (Ring.add (s.chGet .ker dv) ko)
-      (setMode s vk (some ko), .ok)
+      (assignTemp (tempOf s .ker ko) vk .ker, .ok)
   | .mkstr st d =>
     let vs := Var.user .str st; let vd := Var.user .dev d
     if !s.vlive vs || !s.vlive vd then (s, .bad) else
@@ -533,7 +543,7 @@ def step (s : St) : Op → St × Res
       let s := s.touch dv
       let (s, so) := s.alloc .str (some dv) 0
       let s := s.chSet .str dv (Ring.add (s.chGet .str dv) so)
-      (setMode s vs (some so), .ok)
+      (assignTemp (tempOf s .str so) vs .str, .ok)
   | .getstr st d =>
     let vs := Var.user .str st; let vd := Var.user .dev d
     if !s.vlive vs || !s.vlive vd then (s, .bad) else
